@@ -233,7 +233,7 @@ Lemma ind_undef_rel U U' rel R R' : Permutation U U' -> dequiv R R' ->
   ind_undef A eqb U rel R = ind_undef A eqb U' rel R'.
 Proof.
   intros HU HR. unfold ind_undef. destruct (wfm_rel R R' U U' HR HU) as [|m m' [H1 H2]]; [reflexivity|]. cbv beta iota.
-  rewrite (subset_eqset (filter rel (snd m)) (filter rel (snd m')) (fst m) (fst m')); [reflexivity| |exact H1].
+  f_equal. f_equal. apply subset_eqset; [|exact H1].
   apply filter_ext_eqset; [exact H2|reflexivity].
 Qed.
 
